@@ -219,7 +219,14 @@ def build(case):
                             info.update(index=idx)
                         else:
                             tgt = blk['lists'][ref % len(blk['lists'])]
-                            spec = {'v': tgt['voff'] if a['kind'] == 'views' else tgt['off']}
+                            off = tgt['off']
+                            skip = a.get('tail', 0)
+                            if skip and len(tgt['recs']) > 1 and a['kind'] != 'views' and not tgt['views']:
+                                # shared tail: this attribute designates a later entry of a list that another attribute designates from its start
+                                k = skip % len(tgt['recs'])
+                                off = tgt['off'] + tgt['recs'][k]['off']
+                                info['tail_from'] = k
+                            spec = {'v': tgt['voff'] if a['kind'] == 'views' else off}
                     else:
                         lst = exp['loc4' if sect == 'loc' else 'rng4']
                         tgt = lst[ref % len(lst)]
@@ -280,7 +287,7 @@ def want_entries(L, v5, loc, skip=0):
             else:
                 out.append(('range', base0 + r[1], r[2], r[3], r[4], False))
         return out
-    for r in L['recs']:
+    for r in L['recs'][skip:]:
         o = L['off'] + r['off']
         if r['vals'][0] == 'base':
             out.append(('base', o, r['len'], r['vals'][1]))
@@ -424,7 +431,7 @@ def run_case(ctx, case):
                     tgt = x['target']
                     skip = x.get('tail_from', 0)
                     want = want_entries(tgt, v5, True, skip)
-                    off = tgt['off'] + (tgt['recs'][skip][1] if (skip and not v5) else 0)
+                    off = tgt['off'] + ((tgt['recs'][skip]['off'] if v5 else tgt['recs'][skip][1]) if skip else 0)
                     if v5 and 'index' in x:
                         nt = True
                         ctx.count('fetch.loclistx')
@@ -457,7 +464,7 @@ def run_case(ctx, case):
                     tgt = x['target']
                     skip = x.get('tail_from', 0)
                     want = want_entries(tgt, v5, False, skip)
-                    off = tgt['off'] + (tgt['recs'][skip][1] if (skip and not v5) else 0)
+                    off = tgt['off'] + ((tgt['recs'][skip]['off'] if v5 else tgt['recs'][skip][1]) if skip else 0)
                     if v5 and 'index' in x:
                         nt = True
                         ctx.count('fetch.rnglistx')
@@ -770,13 +777,19 @@ def build_case(ch, tier):
                             usex = False
                     if tgt.get('views') and not usex:
                         at = 0x02
-                    add({'at': at, 'form': 'DW_FORM_loclistx' if usex else 'DW_FORM_sec_offset', 'kind': 'loclist', 'ref': L})
+                    a5 = {'at': at, 'form': 'DW_FORM_loclistx' if usex else 'DW_FORM_sec_offset', 'kind': 'loclist', 'ref': L}
+                    if not usex and not tgt.get('views') and ch.bool(0.25):
+                        a5['tail'] = ch.int(1, 5)
+                    add(a5)
                     if not usex and tgt.get('views'):
                         add({'at': AT_locviews, 'form': 'DW_FORM_sec_offset', 'kind': 'views', 'ref': L})
                 if 'rng_block' in cu and ch.bool(0.6):
                     blk = case['rng5'][cu['rng_block']]
                     usex = blk['offset_count'] and ch.bool(0.5)
-                    add({'at': 0x55, 'form': 'DW_FORM_rnglistx' if usex else 'DW_FORM_sec_offset', 'kind': 'rnglist', 'ref': ch.int(0, 50)})
+                    a5 = {'at': 0x55, 'form': 'DW_FORM_rnglistx' if usex else 'DW_FORM_sec_offset', 'kind': 'rnglist', 'ref': ch.int(0, 50)}
+                    if not usex and ch.bool(0.25):
+                        a5['tail'] = ch.int(1, 5)
+                    add(a5)
             else:
                 lform = 'DW_FORM_sec_offset' if ver == 4 else ('DW_FORM_data4' if ch.bool(0.7) or cu['fmt'] == 32 else 'DW_FORM_data8')
                 if ch.bool(0.7):
